@@ -6,7 +6,7 @@ MATCH = {"match_missing", "match_spurious", "match_duplicate", "panic", "trace_r
 CLASSES = {
     "C01": MATCH,
     "C02": MATCH | {"rebuild_differs", "len", "get_by_id", "remove_return"},
-    "C17": {"trace_routes_differ", "trace_final_priority", "panic", "trace_rejected"},
+    "C17": {"trace_routes_differ", "trace_final_priority", "trace_action_last_differs", "panic", "trace_rejected"},
     "C12": {"cache_changes_match", "cache_changes_capture", "cache_changes_trace", "cache_changes_remove", "panic", "trace_rejected"},
     "C06": {"request_json_roundtrip", "panic", "trace_rejected"},
     "C11": {"rebuild_differs", "panic", "trace_rejected"},
@@ -69,6 +69,9 @@ def run_prop(prop, tier):
     wd = workdir(prop)
     build_harness()
     router_part(c, wd, prop, tier)
+    if prop == "C17":
+        import p_analysis
+        p_analysis.analysis_part(c, wd, "C17", tier)
     c.assumptions = ["trigger atoms and their meaning are the tables of Router.tla (case folding, CIDR membership, header value relations, "
                      "instants); probe requests are the witness-centred slices of RouterMachine.tla",
                      "rule ids are unique among live rules (precondition of the properties)"]
